@@ -12,7 +12,7 @@
 EXTENDS Dddmp, Json, IOUtils
 
 Rec == ndJsonDeserialize(IOEnv.TRACE)
-MaxFail == 40
+MaxFail == 100000    \* never cut a trace short: every event is judged
 
 (* st: the projected manager [kind, n, l2v, names, binsup]; vals: slot ->
    [e, v] (edge, denotation); ex: the last export *)
@@ -122,7 +122,14 @@ ExportObs(r, x, nn) ==
       vt == ":" \o set.ver
       written == NamesWritten(f)
       E == FileVarNames(f)
-      eOk == VarNamesOk(st.names, E)
+      V == 0 .. n - 1
+      countOk ==
+        /\ Len(E) = n
+        /\ HasKey(f, ".orderedvarnames") => Len(Toks(f, ".orderedvarnames")) = n
+        /\ HasKey(f, ".suppvarnames") => Len(Toks(f, ".suppvarnames")) = Len(x.ids)
+      judge == written /\ x.ne # "no" /\ countOk
+      replOk == \A v \in V : st.names[v + 1] # <<>> => VarNameOk(st.names, v, E[v + 1])
+      genOk == \A v \in V : st.names[v + 1] = <<>> => VarNameOk(st.names, v, E[v + 1])
       fieldsOk ==
         /\ (set.ver = "3.0") <=> HasKey(f, ".varnames")
         /\ HasKey(f, ".varnames") \/ HasKey(f, ".orderedvarnames")
@@ -131,7 +138,7 @@ ExportObs(r, x, nn) ==
         /\ HasKey(f, ".suppvarnames") =>
              Toks(f, ".suppvarnames") = [j \in 1 .. Len(x.ids) |-> E[x.ids[j] + 1]]
   IN
-  IF Cls(r) = "panic" THEN << O("C15", "export.nopanic" \o tg, FALSE) >>
+  IF Cls(r) = "panic" THEN << O("C15", "export.nopanic" \o tg \o ":" \o r.res.pc, FALSE) >>
   ELSE
   << O("C15", "export.roots_known", x.known),
      O("C15", "strict" \o vt,
@@ -147,11 +154,16 @@ ExportObs(r, x, nn) ==
      O("C15", "header.support" \o tg, Nums(f, ".ids") = x.ids),
      O("C15", "header.order" \o tg, Nums(f, ".permids") = x.perm),
      O("C15", "header.nnodes" \o tg, Num1(f, ".nnodes", NaN) = nn),
-     O("C15", "sanitise.varnames" \o vt,
-        CASE x.ne = "no" -> ~written
-          [] x.ne = "yes" -> written /\ eOk
-          [] OTHER -> written => eOk),
-     O("C15", "header.names" \o vt, (written /\ x.ne # "no" /\ eOk) => fieldsOk),
+     \* are names written at all / one name per variable / characters replaced /
+     \* names generated for unnamed variables / uniqueness retained / the
+     \* fields agree with each other
+     O("C15", "sanitise.varnames.presence" \o vt,
+        CASE x.ne = "no" -> ~written [] x.ne = "yes" -> written [] OTHER -> TRUE),
+     O("C15", "sanitise.varnames.count" \o vt, (written /\ x.ne # "no") => countOk),
+     O("C15", "sanitise.varnames.replace" \o vt, judge => replOk),
+     O("C15", "sanitise.varnames.generated" \o vt, judge => genOk),
+     O("C15", "sanitise.varnames.unique" \o vt, judge => Distinct(E)),
+     O("C15", "header.names" \o vt, (judge /\ replOk /\ genOk /\ Distinct(E)) => fieldsOk),
      O("C15", "sanitise.rootnames" \o vt,
         IF ~x.withN THEN ~HasKey(f, ".rootnames")
         ELSE Len(r.roots) > 0 =>
@@ -176,16 +188,33 @@ TrExport ==
   /\ UNCHANGED <<st, vals>>
 
 ----------------------------------------------------------------------------
+(* what the accessors of any DumpHeader promise (doc comments of
+   support_vars, support_var_order, support_var_to_level, var_names,
+   root_names) *)
+HeaderContract(h) ==
+  LET k == Len(h.ids)
+      lvl(v) == h.permids[CHOOSE j \in 1 .. k : h.ids[j] = v]
+  IN  /\ h.nsupp = k /\ Len(h.order) = k /\ Len(h.permids) = k
+      /\ \A j \in 1 .. k : h.ids[j] < h.nvars /\ h.permids[j] < h.nvars
+      /\ \A j \in 1 .. k - 1 : h.ids[j] < h.ids[j + 1]
+      /\ Distinct(h.permids)
+      /\ SeqToSet(h.order) = SeqToSet(h.ids)
+      /\ SeqToSet(h.order) = SeqToSet(h.ids) =>
+            \A j \in 1 .. k - 1 : lvl(h.order[j]) < lvl(h.order[j + 1])
+      /\ Has(h, "names") => Len(h.names) = h.nvars
+      /\ Has(h, "rnames") => Len(h.rnames) = h.nroots
+
 (* header: DumpHeader::load of the exported bytes, against the manager *)
 HeaderObs(r) ==
   LET tg == ex.tag
       vt == ":" \o ex.set.ver
       h == r.h
   IN
-  IF Cls(r) = "panic" THEN << O("C15", "import.nopanic:header" \o tg, FALSE) >>
-  ELSE IF Cls(r) = "err" THEN << O("C15", "export.accepted_by_import:header" \o tg, FALSE) >>
+  IF Cls(r) = "panic" THEN << O("C15", "import.nopanic:header" \o tg \o ":" \o r.res.pc, FALSE) >>
+  ELSE IF Cls(r) = "err" THEN << O("C15", "export.accepted_by_import:header" \o tg \o ":" \o r.res.ec, FALSE) >>
   ELSE
-  << O("C15", "header.counts" \o tg,
+  << O("C15", "header.contract" \o tg, HeaderContract(h)),
+     O("C15", "header.counts" \o tg,
         h.nvars = st.n /\ h.nroots = Len(ex.V) /\ h.nnodes = Num1(ex.file, ".nnodes", NaN)),
      O("C15", "header.support" \o tg, h.ids = ex.ids /\ h.nsupp = Len(ex.ids)),
      O("C15", "header.order" \o tg, h.order = ex.order /\ h.permids = ex.perm),
@@ -221,9 +250,9 @@ SameObs(r) ==
   LET tg == ex.tag
       c == Cls(r)
   IN
-  IF c = "panic" THEN << O("C15", "import.nopanic:same" \o tg, FALSE) >>
+  IF c = "panic" THEN << O("C15", "import.nopanic:same" \o tg \o ":" \o r.res.pc, FALSE) >>
   ELSE
-  << O("C15", "export.accepted_by_import:same" \o tg, c = "ok"),
+  << O("C15", "export.accepted_by_import:same" \o tg \o (IF c = "err" THEN ":" \o r.res.ec ELSE ""), c = "ok"),
      O("C15", "roundtrip.same" \o tg,
         c = "ok" => (/\ Len(r.eq) = Len(ex.V)
                      /\ \A j \in 1 .. Len(r.eq) : r.eq[j]
@@ -255,11 +284,11 @@ FreshObs(r) ==
       c == IF Has(r, "res") THEN Cls(r) ELSE "none"
       kind == st.kind
   IN
-  IF hc = "panic" THEN << O("C15", "import.nopanic:header" \o tg, FALSE) >>
-  ELSE IF hc = "err" THEN << O("C15", "export.accepted_by_import:header" \o tg, FALSE) >>
-  ELSE IF c = "panic" THEN << O("C15", "import.nopanic:fresh" \o tg, FALSE) >>
+  IF hc = "panic" THEN << O("C15", "import.nopanic:header" \o tg \o ":" \o r.hres.pc, FALSE) >>
+  ELSE IF hc = "err" THEN << O("C15", "export.accepted_by_import:header" \o tg \o ":" \o r.hres.ec, FALSE) >>
+  ELSE IF c = "panic" THEN << O("C15", "import.nopanic:fresh" \o tg \o ":" \o r.res.pc, FALSE) >>
   ELSE IF c # "ok" THEN
-    << O("C15", "export.accepted_by_import:fresh" \o tg, c \notin {"err"}),
+    << O("C15", "export.accepted_by_import:fresh" \o tg \o (IF c = "err" THEN ":" \o r.res.ec ELSE ""), c \notin {"err"}),
        \* the order announced by the header could not be established
        O("C15", "header.order" \o tg, c \notin {"precond", "setup_panic", "skipped"}) >>
   ELSE
@@ -271,7 +300,9 @@ FreshObs(r) ==
            LET fs == FileSem(kind, r.n, r.sv, ex.file)
            IN  fs.st = "ok" /\ fs.roots = TtVals(r)),
      O("C15", "import.wellformed" \o tg, SnapWellFormed(kind, r.n, r.snap) /\ RootsInSnap(r)),
-     O("C15", "import.noleak" \o tg, r.after = r.base) >>
+     O("C15", "import.noleak" \o tg, r.after = r.base),
+     \* the names of the header can be given to the variables of a manager
+     O("C15", "header.names.usable" \o vt, r.named \in {"ok", "none"}) >>
 TrImportFresh ==
   /\ Ev("import_fresh") /\ ex.valid
   /\ Step(FreshObs(Rec[l]))
@@ -287,8 +318,9 @@ BadObs(r) ==
   IN
   IF hc = "panic" THEN << O("C15", "import.nopanic:header:" \o r.hres.pc, FALSE) >>
   ELSE IF hc = "err" THEN <<>>
+  ELSE IF ~HeaderContract(r.h) THEN << O("C15", "header.contract:mutated", FALSE) >>
   ELSE IF c = "panic" THEN << O("C15", "import.nopanic:import:" \o r.res.pc, FALSE) >>
-  ELSE IF c = "setup_panic" THEN << O("C15", "import.header_order", FALSE) >>
+  ELSE IF c \in {"setup_panic", "precond"} THEN << O("C15", "header.order:mutated", FALSE) >>
   ELSE IF c # "ok" THEN
     << O("C15", "import.noleak:err", (Has(r, "after") /\ Has(r, "base")) => r.after = r.base) >>
   ELSE
